@@ -101,6 +101,8 @@ def pending_fall(ch) -> int:
     end = ch.end
     for s in reversed(ch.slots):
         if s.kind == "pulse":
+            if s.in_eom != s.cur_eom and end >= s.tf + s.fall_own:
+                return end  # played in the other mode and already at rest by the bandwidth it was played with
             return max(end, s.tf + s.fall_cur)
     return end
 
